@@ -134,7 +134,7 @@ def run(ctx):
     g = [x for x in F.find(r"^d_engine_client::grpc_client::GrpcClient::get_multi_with_policy$") if x.parent is None]
     prod += g
     gm = "d_engine_core::storage::state_machine::StateMachine::get_multi"
-    impls = [F.bodies[d] for (_s, d) in F.impls_of_method.get(gm, []) if d in F.bodies and "test" not in d and "mock" not in d.lower()]
+    impls = [F.bodies[d] for (_s, d) in F.impls_of_method.get(gm, []) if d in F.bodies and not is_test_id(d) and "mock" not in d.lower()]
     if gm in F.bodies:
         impls.append(F.bodies[gm])
     prod += impls
